@@ -26,7 +26,7 @@ def run(tier, seed, t0):
     if thorough:
         for be in vbuild.BACKENDS:
             for s in range(3):
-                jobs.append(j("cmp-small-%s-s%d" % (be, s), "optim", be, ["--seed", seed + s, "--threads", "1,2,4,8,16,32,64", "--rounds", 2, "--passes", 2], weight=16, timeout=3600))
+                jobs.append(j("cmp-small-%s-s%d" % (be, s), "optim", be, ["--seed", seed + s, "--threads", "1,2,4,8,16,32,64", "--rounds", 2, "--passes", 2, "--fork", 1 if s == 0 else 0], weight=16, timeout=3600))
             jobs.append(j("cmp-default128-%s" % be, "optim", be, ["--seed", seed, "--lambda", 128, "--threads", "4,16,32", "--rounds", 1, "--slowjobs", 0], weight=16, timeout=3600))
             for sd in range(3):
                 jobs.append(j("cmp-detached-%s-s%d" % (be, sd), "optim", be, ["--seed", seed + sd, "--detached", 1, "--threads", "2,3,4,6,8,16,32", "--rounds", 10, "--slowjobs", 0], weight=16, timeout=3600))
@@ -41,7 +41,9 @@ def run(tier, seed, t0):
         jobs.append(j("cmp-small-spqlios-fma", "optim", "spqlios-fma", ["--seed", seed, "--threads", "1,2,4,8,16,32", "--rounds", 2], weight=8))
         jobs.append(j("cmp-small-nayuki-avx", "optim", "nayuki-avx", ["--seed", seed, "--threads", "1,4,16", "--rounds", 2], weight=8))
         jobs.append(j("cmp-small-nayuki-portable", "optim", "nayuki-portable", ["--seed", seed + 1, "--threads", "3,8", "--rounds", 2, "--keygen", 0], weight=8))
-        jobs.append(j("cmp-small-fftw", "optim", "fftw", ["--seed", seed, "--threads", "2,8,16", "--rounds", 2], weight=8))
+        jobs.append(j("cmp-small-fftw", "optim", "fftw", ["--seed", seed, "--threads", "2,8,16", "--rounds", 2, "--fork", 1], weight=8))
+        jobs.append(j("fork-spqlios-avx", "optim", "spqlios-avx", ["--seed", seed + 3, "--threads", "2", "--rounds", 1, "--fork", 1, "--keygen", 0], weight=4))
+        jobs.append(j("fork-nayuki-avx", "optim", "nayuki-avx", ["--seed", seed + 3, "--threads", "2", "--rounds", 1, "--fork", 1, "--keygen", 0], weight=4))
         jobs.append(j("cmp-default128-spqlios-fma", "optim", "spqlios-fma", ["--seed", seed, "--lambda", 128, "--threads", "8", "--rounds", 1, "--slowjobs", 0], weight=8))
         jobs.append(j("longrun-spqlios-fma", "optim", "spqlios-fma", ["--seed", seed + 2, "--threads", "1", "--rounds", 1, "--keygen", 0, "--n", 8, "--longrun", 70000], weight=1, timeout=3600))
         jobs.append(j("longrun-fftw", "optim", "fftw", ["--seed", seed + 2, "--threads", "1,2", "--rounds", 1, "--keygen", 0, "--n", 8, "--longrun", 70000], weight=1, timeout=3600))
